@@ -24,7 +24,7 @@ RULE = ("families {daily current/legacy, billing, hourly} x baseline datasets (n
 ASSUMPTIONS = ["when several refusal reasons hold at once (e.g. disqualified and foreign timezone) any raised exception counts as refusal",
                "a model 'carries a disqualification' when model.disqualification is non-empty"]
 REQUIRED_REACH = {"event.fit": 24, "event.predict": 200, "gate.fit_refused": 6, "gate.fit_overridden": 6, "gate.predict_refused_dq": 10,
-                  "gate.predict_overridden": 10, "gate.predict_refused_foreign": 40, "gate.stored_model_events": 60, "gate.poor_fit_model": 2, "gate.poor_fit_rule_judged": 3, "gate.model_object_refitted": 6, "gate.subclass_related_foreign_type": 4, "gate.poor_fit_with_an_undefined_metric": 1, "gate.reporting_data_with_an_unused_column": 4, "gate.another_model_of_the_family_fitted_afterwards": 12, "gate.poor_fit_rule_judged_on_a_poor_fit_of_another_hourly_profile": 2,
+                  "gate.predict_overridden": 10, "gate.predict_refused_foreign": 40, "gate.stored_model_events": 60, "gate.poor_fit_model": 2, "gate.poor_fit_rule_judged": 3, "gate.model_object_refitted": 6, "gate.subclass_related_foreign_type": 4, "gate.poor_fit_with_an_undefined_metric": 1, "gate.reporting_data_with_an_unused_column": 4, "gate.another_model_of_the_family_fitted_afterwards": 12, "gate.fit_override_given_as_another_falsy_or_truthy_value": 20, "gate.poor_fit_rule_judged_on_a_poor_fit_of_another_hourly_profile": 2,
                   "gate.unfitted": 6, "stored.disqualification_kind:missing_monthly_temperature_data": 1, "stored.disqualification_kind:incorrect_number_of_total_days": 1}
 
 VIOL = []
@@ -142,6 +142,17 @@ def run_case(spec):
                 if res is not m:
                     add("fit-returned-another-object", "fit did not return the model itself")
                 models[ign] = m
+    # ---- the override as configuration code delivers it: numpy booleans from a comparison / a DataFrame cell, 0 / 1 ------------------
+    if data_dq:
+        for alt, truth in ((np.bool_(False), False), (0, False), (np.bool_(True), True), (1, True)):
+            m_alt = fam.new_model(seed=spec["n"] + 1)
+            out_a, _, _ = outcome_of(lambda: m_alt.fit(copy.deepcopy(data), ignore_disqualification=alt))
+            I.reach("gate.fit_override_given_as_another_falsy_or_truthy_value")
+            if not truth and out_a != "DataSufficiencyError":
+                add("fit-gate-open:%s:override-given-as-%s" % (fam.kind, type(alt).__name__), "fit on data disqualified by %s with ignore_disqualification=%r (%s) ended in %r instead of DataSufficiencyError" % (
+                    data_dq, alt, type(alt).__name__, out_a), **tag)
+            if truth and out_a == "DataSufficiencyError":
+                add("fit-refused-although-overridden:%s:override-given-as-%s" % (fam.kind, type(alt).__name__), "fit with ignore_disqualification=%r raised DataSufficiencyError" % (alt,), **tag)
     # ---- a model object that was fitted on ANOTHER baseline before carries the gate state of its LAST fit only ----------------
     if defect in ("none", "too_short", "month_gap", "poor_fit") and fam.kind != "caltrack":
         other_defect = "too_short" if defect == "none" else "none"
